@@ -309,15 +309,40 @@ def retime(index, rep):
     rep.check(len(nulls) >= 1, rule, "skip-path-exists", "no path skips round 2 when feeding yields less meat", loc=loc(PARAMS, fn))
     # fill_negatives_with_positives: paired updates, fresh array, donor guard
     f = index.func(PARAMS, "Parameters.fill_negatives_with_positives")
-    first = [s for s in f.body if isinstance(s, ast.Assign)][0]
-    rep.check(norm_src(first.targets[0]) == "arr" and norm_src(first.value).startswith("np.array(arr"), rule, "fill:works-on-a-copy",
+    params = [a.arg for a in f.args.args if a.arg not in ("self", "cls")]
+    if not params:
+        raise AnalysisError("fill_negatives_with_positives takes no array argument")
+    param = params[0]
+    # the working array: the name every subscripted update goes to
+    targets = {norm_src(st.target.value) for st in walk_no_nested(f) if isinstance(st, ast.AugAssign) and isinstance(st.target, ast.Subscript)}
+    if len(targets) != 1:
+        raise AnalysisError(f"fill_negatives_with_positives updates {sorted(targets)} (expected one working array)")
+    arr = targets.pop()
+    defs_arr = [s for s in f.body if isinstance(s, ast.Assign) and any(norm_src(t) == arr for t in s.targets)]
+
+    def fresh_copy(v):
+        """np.array(p, ...) without copy=False, np.copy(p), p.copy(), p.astype(...) without copy=False, copy.deepcopy(p), list(p)"""
+        if not isinstance(v, ast.Call):
+            return False
+        d = dotted(v.func) or ""
+        nocopy = any(k.arg == "copy" and isinstance(k.value, ast.Constant) and k.value.value is False for k in v.keywords)
+        if d in ("np.array", "numpy.array", "np.copy", "copy.deepcopy", "copy.copy", "list", "np.asarray") and v.args and norm_src(v.args[0]) == param:
+            return d != "np.asarray" and not nocopy
+        if isinstance(v.func, ast.Attribute) and v.func.attr == "copy" and not v.args:
+            return True  # a copy of anything is fresh
+        if isinstance(v.func, ast.Attribute) and v.func.attr == "astype" and norm_src(v.func.value) == param:
+            return not nocopy
+        return False
+
+    rep.check(len(defs_arr) == 1 and fresh_copy(defs_arr[0].value) and f.body.index(defs_arr[0]) == min(
+        i for i, s_ in enumerate(f.body) if not (isinstance(s_, ast.Expr) and isinstance(s_.value, ast.Constant))), rule, "fill:works-on-a-copy",
               "the fill mutates its argument instead of a fresh float copy", loc=loc(PARAMS, f))
     blocks = {}
     for st in walk_no_nested(f):
-        if isinstance(st, ast.AugAssign) and isinstance(st.target, ast.Subscript) and norm_src(st.target.value) == "arr":
+        if isinstance(st, ast.AugAssign) and isinstance(st.target, ast.Subscript) and norm_src(st.target.value) == arr:
             par = getattr(st, "_parent", None)
             blocks.setdefault(id(par), []).append(st)
-        elif isinstance(st, ast.Assign) and any(isinstance(t, ast.Subscript) and norm_src(t.value) == "arr" for t in st.targets):
+        elif isinstance(st, ast.Assign) and any(isinstance(t, ast.Subscript) and norm_src(t.value) in (arr, param) for t in st.targets):
             blocks.setdefault("plain", []).append(st)
     plain = blocks.pop("plain", [])
     rep.check(not plain, rule, "fill:no-plain-store", "an element of the array is overwritten (not a transfer): the total changes", loc=loc(PARAMS, f))
@@ -336,18 +361,18 @@ def retime(index, rep):
             recv = norm_src(adds[0].target.slice)
             defs = [s for s in walk_no_nested(f) if isinstance(s, ast.Assign) and norm_src(s.targets[0]) == amount]
             okm = len(defs) == 1 and norm_src(defs[0].value).replace(" ", "") in (
-                f"min(-arr[{recv}],arr[{donor}])", f"min(arr[{donor}],-arr[{recv}])")
+                f"min(-{arr}[{recv}],{arr}[{donor}])", f"min({arr}[{donor}],-{arr}[{recv}])")
             rep.check(okm, rule, "fill:amount=min(deficit,donor)", "the transferred amount is not min(deficit, donor): a donor could go negative or "
                       "a deficit be over-filled", loc=loc(PARAMS, defs[0]) if defs else loc(PARAMS, f))
             # guard: donor must be positive and different from the receiver
             par = getattr(sts[0], "_parent", None)
             guards = [norm_src(s.test) for s in getattr(par, "body", []) if isinstance(s, ast.If) and any(isinstance(x, ast.Continue) for x in s.body)]
-            okg = any(f"arr[{donor}] <= 0" in g and f"{donor} == {recv}" in g.replace(f"{recv} == {donor}", f"{donor} == {recv}") for g in guards)
+            okg = any(f"{arr}[{donor}] <= 0" in g and f"{donor} == {recv}" in g.replace(f"{recv} == {donor}", f"{donor} == {recv}") for g in guards)
             rep.check(okg, rule, "fill:donor-positive-and-distinct", "donors are not restricted to other, strictly positive entries", loc=loc(PARAMS, f))
     if n_pairs < 1:
         raise AnalysisError("fill_negatives_with_positives: no array update found")
     rets = [r for r in f.body if isinstance(r, ast.Return)]
-    rep.check(len(rets) == 1 and norm_src(rets[0].value) == "arr", rule, "fill:returns-the-array", "the filled array is not what is returned", loc=loc(PARAMS, f))
+    rep.check(len(rets) == 1 and norm_src(rets[0].value) == arr, rule, "fill:returns-the-array", "the filled array is not what is returned", loc=loc(PARAMS, f))
     rep.require_min(rule, 9)
 
 
